@@ -22,14 +22,21 @@ func isErrorType(t types.Type) bool {
 
 // writerValues computes the SSA values of fn that are (derived from) an
 // io.Writer parameter or free variable: the destination of a render.
+// destWriterSeeds, when set, restricts the writer parameters / captured variables that count as "the destination
+// writer" to those a destination writer can actually be passed for (see destinationWriters).
+var destWriterSeeds map[ssa.Value]bool
+
 func writerValues(fn *ssa.Function) map[ssa.Value]bool {
 	w := map[ssa.Value]bool{}
 	for _, p := range fn.Params {
-		if isIOWriter(p.Type()) {
+		if isIOWriter(p.Type()) && (destWriterSeeds == nil || destWriterSeeds[p]) {
 			w[p] = true
 		}
 	}
 	for _, fv := range fn.FreeVars {
+		if destWriterSeeds != nil && !destWriterSeeds[fv] {
+			continue
+		}
 		// a captured io.Writer variable is captured by reference: *io.Writer
 		if pt, ok := fv.Type().(*types.Pointer); ok && isIOWriter(pt.Elem()) {
 			w[fv] = true
@@ -371,6 +378,11 @@ func runC15(c *Ctx) {
 
 	nsites := 0
 	pk := map[string]bool{}
+	// the destination writer is the one the caller hands to an exported function (RenderTo and the like); it reaches
+	// other functions only by being passed on or captured. Code that formats into a buffer of its own (debug
+	// printing) never holds it.
+	destWriterSeeds = destinationWriters(c)
+	defer func() { destWriterSeeds = nil }()
 	for _, fn := range c.LibFuncs() {
 		wv := writerValues(fn)
 		if len(wv) == 0 {
@@ -413,4 +425,64 @@ func runC15(c *Ctx) {
 		}
 	}
 	r.Floor("W0", "RenderTo methods", n, 5)
+}
+
+// destinationWriters: writer-typed parameters of exported functions, closed under "passed as an argument to a
+// module function" and "captured by a closure".
+func destinationWriters(c *Ctx) map[ssa.Value]bool {
+	seeds := map[ssa.Value]bool{}
+	for _, fn := range c.LibFuncs() {
+		if fn.Parent() == nil && fn.Object() != nil && fn.Object().Exported() {
+			for _, p := range fn.Params {
+				if isIOWriter(p.Type()) {
+					seeds[p] = true
+				}
+			}
+		}
+	}
+	eff := c.Effects()
+	for changed := true; changed; {
+		changed = false
+		for _, fn := range c.LibFuncs() {
+			destWriterSeeds = seeds
+			wv := writerValues(fn)
+			if len(wv) == 0 {
+				continue
+			}
+			eachInstr(fn, func(in ssa.Instruction) {
+				if mc, ok := in.(*ssa.MakeClosure); ok {
+					g, _ := mc.Fn.(*ssa.Function)
+					for i, b := range mc.Bindings {
+						if wv[b] && g != nil && i < len(g.FreeVars) && !seeds[g.FreeVars[i]] {
+							seeds[g.FreeVars[i]] = true
+							changed = true
+						}
+					}
+					return
+				}
+				ci, ok := in.(ssa.CallInstruction)
+				if !ok {
+					return
+				}
+				cc := ci.Common()
+				for _, g := range eff.calleesAt(fn, ci) {
+					if g == nil || !inModule(g) || g.Blocks == nil {
+						continue
+					}
+					off := 0
+					if cc.IsInvoke() {
+						off = 1
+					}
+					for k, a := range cc.Args {
+						if wv[a] && k+off < len(g.Params) && !seeds[g.Params[k+off]] {
+							seeds[g.Params[k+off]] = true
+							changed = true
+						}
+					}
+				}
+			})
+		}
+	}
+	destWriterSeeds = nil
+	return seeds
 }
